@@ -56,6 +56,8 @@ type Prog struct {
 	ModPath   string
 	SSA       *ssa.Program
 	CG        *callgraph.Graph
+	VTA       *callgraph.Graph // always the VTA graph (anchors and reachability are resolved on it)
+	noAlloc   map[*types.Named]bool
 	AllFuncs  map[*ssa.Function]bool
 	RepoFuncs []*ssa.Function // every function (incl. closures, wrappers) whose package is a repo package
 	repoPkg   map[*types.Package]bool
@@ -137,10 +139,11 @@ func Load(cfg LoadConfig) (*Prog, error) {
 	p.SSA = prog
 	p.AllFuncs = ssautil.AllFunctions(prog)
 	chaG := cha.CallGraph(prog)
+	p.VTA = vta.CallGraph(p.AllFuncs, chaG)
 	if cfg.UseCHA {
 		p.CG = chaG
 	} else {
-		p.CG = vta.CallGraph(p.AllFuncs, chaG)
+		p.CG = p.VTA
 	}
 	for fn := range p.AllFuncs {
 		if p.IsRepoFunc(fn) {
